@@ -51,8 +51,8 @@ func init() {
 	})
 	property(&Property{
 		ID:    "C13",
-		Rules: []string{"SX-nl-schema", "SX-nl-enum", "SX-sp-schema", "SX-sp-enum"},
-		Explain: "Over the automaton extracted from the schema scanner and the enum-rule scanner (abstract interpretation of Next(), every reachable abstract state up to the stack bound / node cap): LF and CR have identical effect in every state (verdict, events with spans, successor state), so LF, CR and CRLF spellings scan alike; space and tab have identical effect in every state outside content states (string bodies, annotation/comment text, bare rule names — listed with reasons), so indentation style does not change the scan.",
+		Rules: []string{"SX-nl-schema", "SX-nl-enum", "SX-sp-schema", "SX-sp-enum", "NC-1"},
+		Explain: "Over the automaton extracted from the schema scanner and the enum-rule scanner (abstract interpretation of Next(), every reachable abstract state up to the stack bound / node cap): LF and CR have identical effect in every state (verdict, events with spans, successor state), so LF, CR and CRLF spellings scan alike; space and tab have identical effect in every state outside content states (string bodies, annotation/comment text, bare rule names — listed with reasons), so indentation style does not change the scan. NC-1: every comparison of a lexeme's text with a rule name ("enum", "type", "or", the names in the rule constructor table) is made on the unquoted text, so quoted and bare rule names are equivalent.",
 		Assume: []string{
 			"comment placement, inline versus multi-line annotation equivalence, quoted versus bare rule names, rule order and escape normalisation are not decided by these rules",
 			"the schema scanner's state space is explored breadth-first up to a node cap (5000 states quick)",
@@ -94,10 +94,10 @@ func init() {
 	const tableLevel = "Each table is a complete decision, over every valuation of its finite atoms, of one structural clause of the property on the current tree; cells the statement does not determine are don't-care. Necessary conditions of the behavioural statement, not the statement as a whole."
 	property(&Property{
 		ID:    "C01",
-		Rules: []string{"T7", "T8", "TA"},
-		Explain: "T7: the JSON-kind compatibility decision of a scalar document value against a scalar example node (same kind | integer for float | null only where nullable is present; skipped only under an enum rule), extracted from checkNotAnEnum for every document kind x example kind x presence of nullable/enum. T8: required-key registration in the compiler — a property becomes required iff it is not optional (optional absent and keys not optional by default, or optional:false); optional on a non-property is rejected; the registered key is the node's own. TA: ArrayNode.Child selects example element min(i, len-1) and rejects on an empty example array, for all orderings of i against len.",
+		Rules: []string{"T7", "T8", "TA", "T-object", "T-array", "T-tree", "T-any", "T11"},
+		Explain: "T7: the JSON-kind compatibility decision of a scalar document value against a scalar example node (same kind | integer for float | null only where nullable is present; skipped only under an enum rule), extracted from checkNotAnEnum for every document kind x example kind x presence of nullable/enum. T8: required-key registration in the compiler — a property becomes required iff it is not optional (optional absent and keys not optional by default, or optional:false); optional on a non-property is rejected; the registered key is the node's own. TA: ArrayNode.Child selects example element min(i, len-1) and rejects on an empty example array, for all orderings of i against len. T-object: the object validator per lexical event — a key removes exactly itself from the keys still owed, the object may end only when nothing is owed, a key the example names is validated against that property, an unknown key goes to key shortcuts, then additionalProperties, else is rejected at the key. T-array: an item is checked against the example element at the running index, which advances by one; array-end gives the item count to every item-count rule. T-tree: the live-candidate bookkeeping of Tree.FeedLeaves for 1..3 candidates and all per-candidate outcomes (reject iff all failed; failed ones dropped; completed ones step back to their parent; children spliced in). T-any/T11: type any swallows exactly one value by depth counting, IsOpening classifies the JSON events correctly.",
 		Assume: []string{
-			"the parallel-leaf bookkeeping of the validator tree, required-key dynamics across nested objects, duplicate/reordered keys and the depth counting of type any are relations over whole runs and are not decided",
+			"each table decides one step (one lexical event, one call) for all valuations of its atoms; the composition of steps over a whole document (required-key dynamics across nested objects, duplicate keys, property order) is not decided",
 		},
 		Technique: tableTechnique,
 		Level:     tableLevel,
@@ -191,7 +191,55 @@ func init() {
 		Note:      trusted,
 		DesignRef: "DESIGN.md §3 EX-2/KE-1, §4 C15",
 	})
-	for _, id := range []string{"C03", "C04", "C09", "C18"} {
+	property(&Property{
+		ID:    "C03",
+		Rules: []string{"T10", "T-tree", "T-object", "T-any"},
+		Explain: "T10: the additionalProperties dispatch — rule text to mode (any/true, false, @type, a schema type name, anything else rejected) and mode to validator (any value / reject the key / kind check for object, array, scalar / the named type's validators), exhaustive over the declared modes. T-tree: union semantics of candidate validators — every live candidate receives each lexeme and a position is rejected only when every candidate failed (1..3 candidates x all outcomes). T-object: an unknown key is offered to the key shortcuts, then to additionalProperties, else rejected. T-any: additionalProperties any swallows one whole value.",
+		Assume: []string{
+			"which validators a types list expands to (transitive expansion, de-duplication by name), allOf inheritance and the matching of a key against a shortcut's string type are not decided",
+		},
+		Technique: tableTechnique,
+		Level:     tableLevel,
+		Note:      trusted,
+		DesignRef: "DESIGN.md §3 T10, §4 C03",
+	})
+	property(&Property{
+		ID:    "C04",
+		Rules: []string{"SH-1", "SH-visit", "T-allfail", "T7", "T4"},
+		Explain: "SH-1: the schema-check path (literalChecker/mixedChecker) and the document path (literalValidator) both go through validator.ValidateLiteralValue, LiteralValidator.Validate is invoked nowhere else (so Check and Validate cannot disagree on what a rule means), and the array checker gives the example array's own length to minItems and maxItems. SH-visit: checkNode has a case for every concrete schema.Node type, descends into every child, and CheckRootSchema covers the root and every added type. T-allfail: a literal example is rejected iff every candidate checker rejects it, with the candidate's own positioned error when alone. T7/T4: the kind matrix and the item-count comparators used on that path.",
+		Assume: []string{
+			"that the shared validation is sufficient for every construct (e.g. array items typed by or) and the exact position reported for each violation are not decided",
+		},
+		Technique: "static analysis: who-may-call and exhaustiveness rules over go/ssa and go/types, plus decision tables by abstract interpretation",
+		Level:     tableLevel,
+		Note:      trusted,
+		DesignRef: "DESIGN.md §3 SH-1/EX-1, §4 C04",
+	})
+	property(&Property{
+		ID:    "C09",
+		Rules: []string{"UC-1"},
+		Explain: "UC-1: in the functions reachable from the used-type collector and from the link checker (callback-aware call graph), each carrier of a user-type reference is consulted: the types list (type shortcuts, or), the type rule, allOf, additionalProperties with a user type, key shortcuts and mixed shortcut values; allOf parents are resolved against the type table when inherited properties are copied.",
+		Assume: []string{
+			"the recursion decision (a least fix-point over arbitrary type graphs), termination of Check/Validate/Example, and exactness/de-duplication of UsedUserTypes are NOT decided by any rule here",
+		},
+		Technique: "static analysis: must-consult rule over the reachable set (constants passed to Constraint/Get/Has, field reads, type assertions)",
+		Level:     "A narrow structural necessary condition (every reference carrier is looked at); the graph-theoretic core of the property is out of reach of a sound structural rule and is not claimed.",
+		Note:      trusted,
+		DesignRef: "DESIGN.md §3 UC-1, §4 C09",
+	})
+	property(&Property{
+		ID:    "C18",
+		Rules: []string{"SH-2", "SA-E"},
+		Explain: "SH-2: inline enum lists and named enum rules insert their items through the same constraint.NewEnumItem / (*Enum).Append (shared normalisation and duplicate rejection), and the enum-rule scanner's duplicate key uses the same normalisation steps. SA-E: the enum-rule scanner accepts exactly RFC 8259 arrays of scalars (exponents aside) with the reference event stream, so Values lists the literals in source order with exact spans.",
+		Assume: []string{
+			"the regex half (Go %q quoting when a regex type is turned into a schema, the third-party example generator, Len of the /P/ token) and the verdict equivalence itself are not decided",
+		},
+		Technique: "static analysis: sibling cross-check of call skeletons (go/ssa) + scanner automaton extraction",
+		Level:     "Narrow structural necessary conditions for the enum half of the property.",
+		Note:      trusted,
+		DesignRef: "DESIGN.md §3 SH-2, §4 C18",
+	})
+	for _, id := range []string{} {
 		NotApplicable[id] = "engine for this property's structural clauses not finished yet (see DESIGN.md §4); not claimed until its rules run"
 	}
 	NotApplicable["C14"] = "an arithmetic relation between a returned length and acceptance of a prefix over all inputs; no clause has a structural form that is a genuine necessary condition and survives behaviour-preserving edits (DESIGN.md §4 C14)"
